@@ -787,7 +787,7 @@ class CNOTInvFactory(object):
         Ry = self.single_qubit_gate_c.construct(-np.pi/2, -phi_trg-np.pi/2+np.pi/2, p_single_trg, T1_trg, T2_trg)
         Y_Z = self.single_qubit_gate_c.construct(np.pi/2, -phi_ctr-np.pi+np.pi/2, p_single_ctr, T1_ctr, T2_ctr)
         first_sx_gate = self.sx_c.construct(-phi_ctr - np.pi - np.pi/2, p_single_ctr, T1_ctr, T2_ctr)
-        second_sx_gate = self.sx_c.construct(-phi_trg - np.pi/2, p_single_ctr, T1_ctr, T2_ctr)
+        second_sx_gate = self.sx_c.construct(-phi_trg - np.pi/2, p_single_trg, T1_trg, T2_trg)
         first_cr = self.cr_c.construct(-np.pi/4, -phi_ctr-np.pi, t_cr, p_cr, T1_trg, T2_trg, T1_ctr, T2_ctr)
         second_cr = self.cr_c.construct(np.pi/4, -phi_ctr-np.pi, t_cr, p_cr, T1_trg, T2_trg, T1_ctr, T2_ctr)
         x_gate = self.x_c.construct(-phi_trg-np.pi/2, p_single_trg, T1_trg, T2_trg)
